@@ -1,0 +1,84 @@
+//! `cfg(libp2p_verif)` visibility hook for verification property C11 (protocol-change
+//! notifications). Drives the private `ProtocolsChange` helpers the way `Connection` does;
+//! compiled out unless `--cfg libp2p_verif` is given.
+
+use std::collections::{HashMap, HashSet};
+
+use crate::{
+    StreamProtocol,
+    connection::AsStrHashEq,
+    handler::ProtocolsChange,
+};
+
+fn names(change: ProtocolsChange<'_>) -> (bool, Vec<String>) {
+    match change {
+        ProtocolsChange::Added(a) => (true, a.map(|p| p.as_ref().to_owned()).collect()),
+        ProtocolsChange::Removed(r) => (false, r.map(|p| p.as_ref().to_owned()).collect()),
+    }
+}
+
+/// The `local_supported_protocols` / `protocol_buffer` pair of a `Connection`.
+pub struct Local {
+    map: HashMap<AsStrHashEq<String>, bool>,
+    buffer: Vec<StreamProtocol>,
+}
+
+impl Local {
+    /// As `Connection::new`: `gather_supported_protocols` (collect into the map) and, if the map
+    /// is not empty, one `from_initial_protocols` event. Events are `(is_added, names)`.
+    pub fn new(initial: Vec<String>) -> (Self, Option<(bool, Vec<String>)>) {
+        let map: HashMap<AsStrHashEq<String>, bool> =
+            initial.into_iter().map(|info| (AsStrHashEq(info), true)).collect();
+        let mut buffer = Vec::new();
+        let ev = if !map.is_empty() {
+            Some(names(ProtocolsChange::from_initial_protocols(
+                map.keys().map(|e| &e.0),
+                &mut buffer,
+            )))
+        } else {
+            None
+        };
+        (Local { map, buffer }, ev)
+    }
+
+    /// As the tail of `Connection::poll`: `from_full_sets` against the newly advertised list.
+    pub fn update(&mut self, new_protocols: Vec<String>) -> Vec<(bool, Vec<String>)> {
+        ProtocolsChange::from_full_sets(&mut self.map, new_protocols, &mut self.buffer)
+            .into_iter()
+            .map(names)
+            .collect()
+    }
+
+    /// Keys currently retained in the map.
+    pub fn keys(&self) -> Vec<String> {
+        self.map.keys().map(|k| k.0.clone()).collect()
+    }
+}
+
+/// The `remote_supported_protocols` / `protocol_buffer` pair of a `Connection`.
+#[derive(Default)]
+pub struct Remote {
+    set: HashSet<StreamProtocol>,
+    buffer: Vec<StreamProtocol>,
+}
+
+impl Remote {
+    /// As the `ReportRemoteProtocols(Added)` arm of `Connection::poll`.
+    pub fn add(&mut self, protocols: HashSet<StreamProtocol>) -> Option<(bool, Vec<String>)> {
+        let mut out = None;
+        if let Some(added) = ProtocolsChange::add(&self.set, protocols, &mut self.buffer) {
+            out = Some(names(added));
+            self.set.extend(self.buffer.drain(..));
+        }
+        out
+    }
+
+    /// As the `ReportRemoteProtocols(Removed)` arm of `Connection::poll`.
+    pub fn remove(&mut self, protocols: HashSet<StreamProtocol>) -> Option<(bool, Vec<String>)> {
+        ProtocolsChange::remove(&mut self.set, protocols, &mut self.buffer).map(names)
+    }
+
+    pub fn set(&self) -> Vec<String> {
+        self.set.iter().map(|p| p.as_ref().to_owned()).collect()
+    }
+}
